@@ -102,8 +102,8 @@ def _resolve(qname, nsmap, what):
         if "" not in nsmap:
             raise XmlSpecViolation("unprefixed QName %r without default namespace in %s" % (qname, what))
         u, l = nsmap[""], qname
-    if u == XSD_NOHASH:
-        u = XSD
+    if u == XSD_NOHASH and what == "xsi:type":
+        u = XSD  # the XML-Schema namespace has no '#'; PROV's xsd namespace has
     return u + l
 
 
